@@ -7,20 +7,23 @@ import pandas as pd
 
 
 def _df(df):
-    vals = []
-    for c in df.columns:
-        col = df[c]
-        if col.dtype.kind == "f":
-            vals.append(col.to_numpy().tobytes())
-        else:
-            vals.append(repr(list(col.to_numpy(dtype=object))).encode())
     h = hashlib.sha1()
     h.update(repr(list(df.columns)).encode())
-    h.update(repr([str(t) for t in df.dtypes]).encode())
-    h.update(repr(list(df.index)).encode() + str(df.index.dtype).encode())
-    for v in vals:
-        h.update(v)
+    h.update(repr([str(t) for t in df.dtypes.values]).encode())
+    h.update(repr(df.index.tolist()).encode() + str(df.index.dtype).encode())
+    if len(df.columns):
+        kinds = {t.kind for t in df.dtypes.values}
+        if kinds <= {"f"}:
+            h.update(np.ascontiguousarray(df.to_numpy()).tobytes())
+        else:
+            for arr in (df[c].to_numpy() for c in df.columns):
+                h.update(arr.tobytes() if arr.dtype.kind in "fiub" else repr(arr.tolist()).encode())
     return h.hexdigest()
+
+
+def _col(series):
+    arr = series.to_numpy()
+    return hashlib.sha1((arr.tobytes() if arr.dtype.kind in "fiub" else repr(arr.tolist()).encode()) + str(arr.dtype).encode()).hexdigest()
 
 
 def _obj(o):
@@ -30,7 +33,23 @@ def _obj(o):
         return repr(o)
 
 
-def fingerprint(net, include_results=False, per_column=True):
+_STD_CACHE = {}
+
+
+def _std_types(v):
+    """digest of the standard types; the (large, rarely changing) library is hashed once per content signature"""
+    sig = tuple((comp, len(d), id(d)) for comp, d in sorted(v.items()))
+    key = (sig, tuple(tuple(sorted(map(str, d))) for comp, d in sorted(v.items())))
+    if key not in _STD_CACHE:
+        if len(_STD_CACHE) > 50:
+            _STD_CACHE.clear()
+        _STD_CACHE[key] = _obj({comp: {n: (type(t).__name__, repr(sorted((a, repr(b)) for a, b in vars(t).items()))
+                                           if hasattr(t, "__dict__") else repr(sorted(t.items())) if isinstance(t, dict) else repr(t))
+                                       for n, t in sorted(d.items())} for comp, d in sorted(v.items())})
+    return _STD_CACHE[key]
+
+
+def fingerprint(net, include_results=False, per_column=False):
     """dict key -> digest for every user-facing entry; result tables optional."""
     out = {"user_pf_options": "[]"}   # an absent entry and an empty one are the same thing to a user
     for k in list(net.keys()):
@@ -46,16 +65,14 @@ def fingerprint(net, include_results=False, per_column=True):
             if per_column:
                 out[k] = _df(v.iloc[:, :0])
                 for c in v.columns:
-                    out["%s.%s" % (k, c)] = _df(v[[c]])
+                    out["%s.%s" % (k, c)] = _col(v[c])
         elif k == "fluid":
             props = getattr(v, "all_properties", {})
             out[k] = _obj((type(v).__name__, v.name, getattr(v, "fluid_type", None),
                            {pn: (type(p).__name__, {a: (b.tobytes() if isinstance(b, np.ndarray) else repr(b))
                                                     for a, b in sorted(vars(p).items())}) for pn, p in sorted(props.items())}))
         elif k == "std_types":
-            out[k] = _obj({comp: {n: (type(t).__name__, repr(sorted((a, repr(b)) for a, b in vars(t).items()))
-                                      if hasattr(t, "__dict__") else repr(sorted(t.items())) if isinstance(t, dict) else repr(t))
-                                  for n, t in sorted(d.items())} for comp, d in sorted(v.items())})
+            out[k] = _std_types(v)
         elif k == "user_pf_options":
             out[k] = repr(sorted((a, repr(b)) for a, b in v.items() if a != "hyd_flag"))
         elif k == "component_list":
